@@ -15,6 +15,29 @@ impl Ctx {
     }
 }
 
+/// The public matcher, asked twice with one RegexManager: first use (compile), then again after
+/// every compiled regex was discarded (recompile).  Both answers are observations.
+pub fn match_twice(filter: &NetworkFilter, req: &Request) -> (Value, Value) {
+    use adblock::regex_manager::RegexManagerDiscardPolicy;
+    let mut m = RegexManager::default();
+    m.set_discard_policy(RegexManagerDiscardPolicy {
+        cleanup_interval: std::time::Duration::from_nanos(1),
+        discard_unused_time: std::time::Duration::from_nanos(0),
+    });
+    let a = match guarded(|| filter.matches(req, &mut m)) {
+        Ok(b) => json!(b),
+        Err(_) => json!("panic"),
+    };
+    let b = match guarded(|| {
+        m.update_time(); // cleanup: everything unused for >= 0ns is discarded
+        filter.matches(req, &mut m)
+    }) {
+        Ok(b) => json!(b),
+        Err(_) => json!("panic"),
+    };
+    (a, b)
+}
+
 /// C02: one pattern against the URL universe, through NetworkFilter::parse + matches.
 pub fn replay_c02(ctx: &Ctx, c: &Value, rep: &mut Report) {
     let rule = c["rule"].as_str().unwrap();
@@ -44,11 +67,11 @@ pub fn replay_c02(ctx: &Ctx, c: &Value, rep: &mut Report) {
             }
         };
         rep.evaluations += 1;
-        let obs = guarded(|| filter.matches(&req, &mut RegexManager::default()));
-        let obs_v = match &obs {
-            Ok(b) => json!(b),
-            Err(_) => json!("panic"),
-        };
+        let (obs_v, obs_again) = match_twice(&filter, &req);
+        if obs_again != obs_v {
+            rep.mismatch(json!({"what": "recompiled", "rule": rule, "url": url, "observed": obs_again, "allowed": allowed[i],
+                                "first_answer": obs_v, "devs": []}));
+        }
         if obs_v == json!(true) {
             any = true;
         }
@@ -288,15 +311,13 @@ pub fn record_c02(out: &str, seed: u64, n: usize) {
                     continue;
                 }
             };
-            let obs = match guarded(|| filter.matches(&req, &mut RegexManager::default())) {
-                Ok(b) => json!(b),
-                Err(_) => json!("panic"),
-            };
-            if obs == json!(true) && seen.insert(rule.clone()) {
+            let (obs, again) = match_twice(&filter, &req);
+            let obs = if again != obs { json!("unstable") } else if obs == json!(true) { json!("T") } else if obs == json!(false) { json!("F") } else { obs };
+            if obs == json!("T") && seen.insert(rule.clone()) {
                 nontrivial += 1;
             }
             let ev = json!({"rule": rule, "left": left, "body": body, "right": right, "url": u.url, "hs": u.hs, "he": u.he, "obs": obs});
-            if samples.len() < 3 && obs == json!(true) {
+            if samples.len() < 3 && obs == json!("T") {
                 samples.push(ev.clone());
             }
             w.put(&ev);
@@ -486,6 +507,49 @@ pub fn replay_net(ctx: &NetCtx, c: &Value, rep: &mut Report) {
                 rep.mismatch(json!({"what": "csp", "rules": rules, "tags": tags, "opt": opt,
                     "req": {"url": q.url, "src": q.src, "type": q.alias},
                     "observed": obs.1, "allowed": csp_allowed[qi], "devs": devs, "model": model}));
+            }
+        }
+    }
+    // C04 relational clause: adding an exception never blocks, adding a blocking rule never unblocks.
+    // Every rule x of the list in turn is taken as "the added rule": engine(R) vs engine(R minus x).
+    if c.get("mono").and_then(|m| m.as_bool()).unwrap_or(false) && rules.len() >= 1 {
+        use adblock::filters::network::NetworkFilterMaskHelper;
+        for opt in [false, true] {
+            let full = match guarded(|| build_engine(&rules, &tags, &ctx.resources, opt)) {
+                Ok(e) => e,
+                Err(_) => continue,
+            };
+            for i in 0..rules.len() {
+                let x = match NetworkFilter::parse(&rules[i], true, Default::default()) {
+                    Ok(f) => f,
+                    Err(_) => continue,
+                };
+                if x.is_badfilter() || x.is_csp() || x.is_removeparam() || x.is_generic_hide() {
+                    continue;
+                }
+                let mut rest = rules.clone();
+                rest.remove(i);
+                let without = match guarded(|| build_engine(&rest, &tags, &ctx.resources, opt)) {
+                    Ok(e) => e,
+                    Err(_) => continue,
+                };
+                for q in ctx.reqs.iter() {
+                    let req = match Request::new(&q.url, &q.src, &q.alias) {
+                        Ok(r) => r,
+                        Err(_) => continue,
+                    };
+                    rep.evaluations += 1;
+                    let (bw, bwo) = match guarded(|| (full.check_network_request(&req).matched, without.check_network_request(&req).matched)) {
+                        Ok(v) => v,
+                        Err(_) => continue,
+                    };
+                    let bad = if x.is_exception() { bw && !bwo } else { bwo && !bw };
+                    if bad {
+                        rep.mismatch(json!({"what": "mono", "list": rest, "added": rules[i], "tags": tags, "opt": opt,
+                            "req": {"url": q.url, "src": q.src, "type": q.alias},
+                            "observed": {"blocked_with": bw, "blocked_without": bwo}, "allowed": [], "devs": []}));
+                    }
+                }
             }
         }
     }
